@@ -30,11 +30,7 @@ func checkC13(c *Ctx) {
 	c.RuleT("", inScope, sinkKindsAll)
 	c.RuleN("N.nil", inScope)
 	c.RuleR("R.loop", inScope)
-	c.R.Floor("B.term", 1)
-	c.R.Floor("T1", 3)
-	c.R.Floor("T2", 1)
-	c.R.Floor("T3", 1)
-	c.R.Floor("N.nil", 2)
+	c.scopeGuard("scope", n, 25, "library functions reachable from the exported API of authenticode and pkcs7")
 }
 
 func checkC14(c *Ctx) {
@@ -53,7 +49,5 @@ func checkC14(c *Ctx) {
 	c.RuleT("", inScope, sinkKindsAll)
 	c.RuleN("N.nil", inScope)
 	c.RuleR("R.loop", inScope)
-	c.R.Floor("B.term", 10)
-	c.R.Floor("T1", 5)
-	c.R.Floor("T2", 3)
+	c.scopeGuard("scope", n, 60, "library functions reachable from the exported decoders")
 }
